@@ -49,6 +49,11 @@ def run(ctx):
         else:
             strs = [op_const(st["rv"]["op"]).get("str") for bb in b.reachable_blocks() for st in b.blocks[bb]["stmts"]
                     if st["k"] == "assign" and st["rv"]["k"] == "use" and op_const(st["rv"]["op"]) is not None and "str" in op_const(st["rv"]["op"])]
+            for c in b.calls:
+                for a in c.args:
+                    k = op_const(a)
+                    if k is not None and "str" in k:
+                        strs.append(k["str"])
             arr = [st for bb in b.reachable_blocks() for st in b.blocks[bb]["stmts"] if st["k"] == "assign" and st["rv"]["k"] == "agg" and st["rv"].get("agg") == "array"]
             ok = strs == ["rs"] and len(arr) == 1 and len(arr[0]["rv"]["ops"]) == 1
             ctx.check(ok, P, "value|" + fn, "%s() returns vec![\"rs\"] (string constants: %s)" % (fn, strs), b.where())
